@@ -272,6 +272,36 @@ func cmdCheck(args []string) int {
 			}
 			fn := c.fnByLabel[label]
 			if fn == nil {
+				if impls := c.implementersOf(label); len(impls) > 0 && hasEnsures(fc) {
+					// a contract on an interface method: every implementation in this package must
+					// refine it (behavioural subtyping); the obligations are named <impl>/post#iface_...
+					for _, im := range impls {
+						sfc := &FuncContract{Target: c.label(im), Props: fc.Props, File: fc.File}
+						for _, cl := range fc.Clauses {
+							if cl.Kind == "ensures" {
+								cc := *cl
+								cc.Label = "iface_" + label + "_" + cl.Label
+								sfc.Clauses = append(sfc.Clauses, &cc)
+							}
+						}
+						g := newGen(c, im, sfc)
+						g.ifaceAlias = fc.Params
+						g.run()
+						if len(g.errs) > 0 {
+							stale[label] = append(stale[label], g.errs...)
+						}
+						gens = append(gens, g)
+						nob := 0
+						for _, o := range g.obls {
+							if containsStr(o.Props, *prop) {
+								allObls = append(allObls, o)
+								nob++
+							}
+						}
+						funcsUnder = append(funcsUnder, map[string]any{"function": c.label(im) + " (refines " + label + ")", "obligations": nob})
+					}
+					continue
+				}
 				if isAbstractTarget(label) {
 					continue
 				}
@@ -868,6 +898,15 @@ func containsStr(xs []string, s string) bool {
 
 // isAbstractTarget: contracts for interface methods, struct-field function values etc.
 // have no body to verify.
+func hasEnsures(fc *FuncContract) bool {
+	for _, cl := range fc.Clauses {
+		if cl.Kind == "ensures" {
+			return true
+		}
+	}
+	return false
+}
+
 func isAbstractTarget(label string) bool {
 	return strings.HasPrefix(label, "field:") || strings.HasPrefix(label, "param:") || strings.HasPrefix(label, "captured:") ||
 		strings.HasPrefix(label, "var:") || label == "dynamic" || (!strings.HasPrefix(label, "(") && strings.Contains(label, ".") && !strings.Contains(label, "$"))
